@@ -17,7 +17,8 @@ LEVEL_NOTE = ("exhaustive over: all strings of length <= 7 (quick 6) over {a, b,
               "names x 2 names x 3 values, all paths of length <= 7 (quick 6) over {a, '.', '/'}, all argument vectors of length <= 5 "
               "(quick 4) over 3 symbols with all 64 parsers, 9 mantissas x every decade 1e-15..1e21; longer inputs only by seeded random "
               "sampling.  Not covered (not in the statement): split(keepDelim=true), lowerCase/upperCase, FileName::operator-/canonical, "
-              "operator+ with an empty left operand, zero / negative / out-of-range numbers, Windows separators.  Trusted: TLC, the "
+              "whether operator+ keeps or collapses a separator run at the joint (judged up to collapsing), a const char* right operand of operator+ "
+              "(ambiguous between the two overloads, does not compile), zero / negative / out-of-range numbers, Windows separators.  Trusted: TLC, the "
               "driver's projection of printed text to (decimals, mantissa, suffix), strtod for m*10^e, g++/libstdc++")
 TECHNIQUE = ("TLA+ functional specifications with laws checked by TLC (ASSUME over bounded domains) + exhaustive case replay on the real "
              "code; TLC validation of recorded observations against law predicates; ADT specification with state-graph histories and "
@@ -29,7 +30,7 @@ API = {
     "SplitChar": "StringManip", "SplitSet": "StringManip", "Lcp": "StringManip", "BeginsWith": "StringManip",
     "Tokenize": "PseudoURL", "UrlParse": "PseudoURL",
     "FnSplit": "FileName", "FnNameExt": "FileName", "FnDropExt": "FileName", "FnSetExt": "FileName", "FnAddExt": "FileName",
-    "FnPlus": "FileName", "PrettyDouble": "common", "PrettyNumber": "common",
+    "FnPlus": "FileName", "FnRecompose": "FileName", "PrettyDouble": "common", "PrettyNumber": "common",
 }
 STRING_ARGS = {"s", "d", "x", "y", "o", "u", "t", "f"}
 ADT_MUT = {"Remove", "ParseAndRemove", "RemoveMod"}
@@ -202,12 +203,16 @@ def random_lines(rnd, n):
         lines.append({"a": "UrlParse", "arg": {"t": t, "f": f, "ps": ps, "u": u, "q": sorted(set(names)) + ["zz"]}})
         # file names
         s = rand_str(rnd, "aab../", 0, 16) + rnd.choice(["", "", "/", "//"])
-        op = rnd.choice(["FnSplit", "FnNameExt", "FnDropExt", "FnSetExt", "FnAddExt", "FnPlus"])
+        op = rnd.choice(["FnSplit", "FnNameExt", "FnDropExt", "FnSetExt", "FnAddExt", "FnPlus", "FnPlus", "FnRecompose"])
+        if op == "FnPlus" and rnd.random() < 0.35:
+            s = rnd.choice(["", "", "/", "//"])          # empty left operand: "", separators only
         arg = {"s": s}
         if op in ("FnSetExt", "FnAddExt"):
             arg["x"] = rnd.choice(["", ".b", ".tar", "b", ".a.b"])
         if op == "FnPlus":
-            arg["o"] = rnd.choice(["a", "b.c", "d/e.f", "a.b/c", ".h"])
+            arg["o"] = rnd.choice(["a", "b.c", "d/e.f", "a.b/c", ".h", "", "/", "/a", "a/", "//b/c.d//", "..", "file.txt"])
+            if s == "" and rnd.random() < 0.5:
+                arg["dflt"] = True                       # default-constructed left operand
         lines.append({"a": op, "arg": arg})
         # SI printing: m * 10^e inside 1e-15 .. 1e21
         m = rnd.randint(1, 99999)
@@ -247,6 +252,9 @@ def run(chk, replay=None):
         "a string of the specification (sequence of one-character strings) and the std::string with the same characters are identified",
         "FileName: laws are stated about str(); for arguments without trailing separator str() is the argument; the hidden-file and '..' "
         "last components may decompose either as name='' ext=rest or as name=base ext='' (the statement does not choose)",
+        "FileName::operator+ (FileName and std::string overloads) follows one rule: an empty left name (\"\", default-constructed, separators "
+        "only) returns the right operand, otherwise this/other; FileName(path()) + base() must name the file again (equality up to "
+        "collapsing separator runs and trailing separators; a leading separator is significant)",
         "SI printing: mantissa in [1, 1000] with both ends admitted, one unit of the last printed digit plus 2^-18 relative tolerance",
         "ArgumentList parsers are content-keyed (symbol -> count, clipped to the remaining arguments); recorded executions use 6 symbols, "
         "vectors up to 16 arguments",
@@ -282,7 +290,23 @@ def run(chk, replay=None):
         all_cases += cases
     replay_cases(chk, exe, all_cases, "c18")
     chk.require_actions(["SplitChar", "SplitSet", "Tokenize", "Lcp", "BeginsWith", "UrlParse", "FnSplit", "FnNameExt", "FnDropExt",
-                         "FnSetExt", "FnAddExt", "FnPlus", "PrettyDouble", "PrettyNumber"])
+                         "FnSetExt", "FnAddExt", "FnPlus", "FnRecompose", "PrettyDouble", "PrettyNumber"])
+    # vacuity: operator+ with an EMPTY left operand, per overload (a case constrains an overload when its result is in exp),
+    # and the recomposition of single-component names
+    plus = [c for c in all_cases if c["a"] == "FnPlus" and c["arg"]["s"] == ""]
+    guard = {
+        "plus_empty_left_FileName_overload": sum(1 for c in plus if "res_fn" in c["exp"]),
+        "plus_empty_left_string_overload": sum(1 for c in plus if "res_str" in c["exp"]),
+        "plus_default_constructed_left": sum(1 for c in plus if c["arg"].get("dflt") and "res_str" in c["exp"]),
+        "plus_separator_only_left": sum(1 for c in all_cases if c["a"] == "FnPlus" and c["arg"]["s"] and set(c["arg"]["s"]) == {"/"}),
+        "plus_right_empty_or_separator": sum(1 for c in all_cases if c["a"] == "FnPlus" and set(c["arg"]["o"]) <= {"/"}),
+        "recompose_single_component": sum(1 for c in all_cases if c["a"] == "FnRecompose" and c.get("cls") == "path=empty" and "res_str" in c["exp"]),
+        "setExt_addExt_default_argument": sum(1 for c in all_cases if "res_default" in c["exp"]),
+        "constructor_overloads": sum(1 for c in all_cases if "str_c" in c["exp"]),
+    }
+    chk.cov["filename_guards"] = guard
+    if not all(guard.values()):
+        raise tla.InfraError("vacuity guard: FileName case classes missing: %s" % {k: v for k, v in guard.items() if not v})
     chk.cov["distinct_nontrivial"] += nontrivial_distinct(all_cases)
     chk.cov["cases_by_action"] = dict(chk.cov["action_counts"])
     for a in ("Tokenize", "UrlParse", "FnNameExt", "SplitSet"):
